@@ -74,6 +74,16 @@ class _CanonCompare(ast.NodeTransformer):
         return node
 
 
+    # `set(<generator>)` is the set comprehension, `list(<generator>)` the list comprehension
+    def visit_Call(self, node):
+        self.generic_visit(node)
+        if isinstance(node.func, ast.Name) and node.func.id in ("set", "list") and len(node.args) == 1 and not node.keywords \
+                and isinstance(node.args[0], ast.GeneratorExp):
+            g = node.args[0]
+            new = (ast.SetComp if node.func.id == "set" else ast.ListComp)(elt=g.elt, generators=g.generators)
+            return ast.copy_location(new, node)
+        return node
+
     # `not not x` -> x ;  `if not c: A else: B` -> `if c: B else: A` (same for conditional expressions; elif chains untouched)
     def visit_UnaryOp(self, node):
         self.generic_visit(node)
